@@ -281,6 +281,20 @@ def replay_file(prop, path):
 
 
 def main(argv=None):
+    """all scratch files of a run (ours and pyxform's) live under one private directory that is removed on exit"""
+    import shutil
+    import tempfile
+
+    run_tmp = tempfile.mkdtemp(prefix="vfrun_")
+    os.environ["TMPDIR"] = run_tmp
+    tempfile.tempdir = run_tmp
+    try:
+        return _main(argv)
+    finally:
+        shutil.rmtree(run_tmp, ignore_errors=True)
+
+
+def _main(argv=None):
     ap = argparse.ArgumentParser()
     ap.add_argument("prop")
     ap.add_argument("--tier", default=os.environ.get("VERIF_TIER", "quick"), choices=["quick", "thorough"])
@@ -385,7 +399,7 @@ def standard_main(prop, pid, a, seed, t0, extra_results=None):
                 merge(r)
         if errors:
             for e in errors[:2]:
-                print(e[:3000], file=sys.stderr)
+                print(e[:3000], file=sys.stderr); print("...", e[-2500:], file=sys.stderr)
             print(f"HARNESS-ERROR property={pid} ({len(errors)} shard errors)")
             return 2
 
